@@ -34,6 +34,8 @@ type C14Run struct {
 }
 
 type C14Params struct {
+	Root    string    `json:"root"` // name of the CRS root directory
+	CRLF    bool      `json:"crlf"` // files use CRLF; a line keeps its content, its terminator may change
 	Files   []C14File `json:"files"`
 	Initial C14Run    `json:"initial"` // what the files show at the start
 	Runs    []C14Run  `json:"runs"`
@@ -151,15 +153,21 @@ func genC14(t *rapid.T, tier string) (*World, any) {
 	w := NewWorld()
 	p := &C14Params{}
 	p.Initial = C14Run{Version: pick(t, []string{"4.0.0", "3.3.2", "4.0.0-rc1"}, "v0"), Year: pick(t, []string{"2022", "2024"}, "y0")}
-	paths := []string{"crs/crs-setup.conf.example", "crs/rules/REQUEST-901-INITIALIZATION.conf", "crs/rules/REQUEST-942-APPLICATION-ATTACK-SQLI.conf", "crs/plugins/empty-after.conf"}
-	n := drawInt(t, 1, 4, "nfiles")
+	p.Root = pick(t, []string{"crs", "crs", "crs", ".crs-build", "core.rule.set"}, "rootname")
+	p.CRLF = chance(t, 10, "crlf")
+	paths := []string{p.Root + "/crs-setup.conf.example", p.Root + "/rules/REQUEST-901-INITIALIZATION.conf", p.Root + "/rules/REQUEST-942-APPLICATION-ATTACK-SQLI.conf", p.Root + "/plugins/empty-after.conf", p.Root + "/.devcontainer/dev.conf"}
+	n := drawInt(t, 1, 5, "nfiles")
 	for i := 0; i < n; i++ {
 		f := C14File{Path: paths[i], Segs: drawConfFile(t, fmt.Sprintf("f%d", i))}
 		p.Files = append(p.Files, f)
-		w.Put(f.Path, f.render(p.Initial.Version, p.Initial.Year, shortVersions(p.Initial.Version)[0]))
+		content := f.render(p.Initial.Version, p.Initial.Year, shortVersions(p.Initial.Version)[0])
+		if p.CRLF {
+			content = strings.ReplaceAll(content, "\n", "\r\n")
+		}
+		w.Put(f.Path, content)
 	}
-	w.Put("crs/regex-assembly/942100.ra", "foo\n")
-	w.Put("crs/README.md", "# OWASP CRS ver.1.0.0\nver:'OWASP_CRS/1.0.0'\n")
+	w.Put(p.Root+"/regex-assembly/942100.ra", "foo\n")
+	w.Put(p.Root+"/README.md", "# OWASP CRS ver.1.0.0\nver:'OWASP_CRS/1.0.0'\n")
 	nr := drawInt(t, 1, 3, "nruns")
 	for i := 0; i < nr; i++ {
 		p.Runs = append(p.Runs, C14Run{Version: pick(t, c14Versions, "v"), Year: pick(t, []string{"2025", "2026", "2031", "1999"}, "y"), Plan: drawPlan(t, fmt.Sprintf("plan%d", i), true)})
@@ -186,9 +194,12 @@ func evalC14(sc *Scenario, sim *Sim) ([]Violation, bool, string) {
 		viol = append(viol, Violation{Prop: "C14", Oracle: oracle, Sig: "C14/" + oracle + "/" + what, Msg: msg, Detail: detail + "\nhistory: " + history()})
 	}
 	run := func(r C14Run) Result {
-		return sb.Run(Step{Argv: []string{"chore", "update-copyright", "-v", r.Version, "-y", r.Year}, Cwd: "crs", Plan: r.Plan})
+		return sb.Run(Step{Argv: []string{"chore", "update-copyright", "-v", r.Version, "-y", r.Year}, Cwd: p.Root, Plan: r.Plan})
 	}
 	matches := func(f *C14File, got string, r C14Run) bool {
+		if p.CRLF {
+			got = strings.ReplaceAll(got, "\r\n", "\n")
+		}
 		for _, short := range shortVersions(r.Version) {
 			want := f.render(r.Version, r.Year, short)
 			if got == want || got == want+"\n" {
@@ -197,7 +208,7 @@ func evalC14(sc *Scenario, sim *Sim) ([]Violation, bool, string) {
 		}
 		return false
 	}
-	otherBefore := string(sb.MustRead("crs/README.md"))
+	otherBefore := string(sb.MustRead(p.Root + "/README.md"))
 	for i, r := range p.Runs {
 		res := run(r)
 		if res.Exit != 0 {
@@ -231,7 +242,7 @@ func evalC14(sc *Scenario, sim *Sim) ([]Violation, bool, string) {
 	if d := before.Diff(after, false); len(d) > 0 {
 		add("idempotent", "bytes", "repeating the last invocation changed bytes: "+strings.Join(d, " "), "")
 	}
-	if string(sb.MustRead("crs/README.md")) != otherBefore {
+	if string(sb.MustRead(p.Root+"/README.md")) != otherBefore {
 		add("markers-after-run", "other-file", "a file that is neither .conf nor .example was changed", "")
 	}
 	return viol, true, fmt.Sprintf("%x|%s", sc.World.Hash(), history())
@@ -263,7 +274,7 @@ func init() {
 		QuickChecks: 1000, ThoroughChecks: 20000, Timeout: 20 * time.Second,
 		Assumptions: []string{
 			"'shows V' means the version exactly as passed on the command line",
-			"LF line ends; a missing final newline may be added (the repository's own test demands that)",
+			"a missing final newline may be added (the repository's own test demands that); in CRLF worlds a line keeps its content while its terminator may become LF",
 		},
 		RealStub: realStubDefault,
 	})
